@@ -213,6 +213,8 @@ def exhaustive_patterns():
 
 
 def gen(rng, tier, shard, nshards):
+    if shard == 0:
+        yield {'kind': 'ambient-suite'}
     nb = 260 if tier == 'quick' else 1500
     # mandatory classes first
     if shard == 0:
@@ -253,6 +255,10 @@ def gen(rng, tier, shard, nshards):
 
 # -- checkers ---------------------------------------------------------------------------------------------------------
 def check(case, ctx):
+    if case.get('kind') == 'ambient-suite':
+        from .. import ambient
+        ctx.nontriv(True)
+        return ambient.run_repo_suite(ctx, None)
     kind = case['kind']
     if kind == 'basis':
         return check_basis(case, ctx)
